@@ -59,6 +59,8 @@ def plan(seed, subbatch):
         from ..catalogue import sample_spec
         spec = sample_spec(cfg, "Amorph")
         spec["common"] = {}
+        if "indicator" in spec["params"] and sub_rng(seed, "volume-input").random() < 0.3:
+            spec["params"]["indicator"] = "volume"      # a series that is exactly 0 on zero-volume and fill candles
         config = {"kind": "indicator", "spec": spec}
         cls = "Amorph"
     else:
